@@ -159,10 +159,16 @@ type blkRec struct {
 	gen  [3]int
 }
 
+// sharedMem is one in-memory Badger per process, emptied (all keys of the network prefix deleted and
+// verified gone) before every sequential in-memory case: opening a Badger instance costs 10-20x more than
+// a whole case. On-disk cases and the concurrency test always get their own instance.
+var sharedMem *kv.BadgerDB
+
 type world struct {
 	builder bool
 	enc     bool
 	disk    bool
+	shared  bool
 	dir     string
 	raw     *kv.BadgerDB
 	fdb     *faultDB
@@ -173,9 +179,29 @@ type world struct {
 
 func (w *world) openDB() error {
 	var err error
-	if w.disk {
+	switch {
+	case w.disk:
 		w.raw, err = kv.New(zap.NewNop(), basedb.Options{Path: w.dir})
-	} else {
+	case w.shared:
+		if sharedMem == nil {
+			if sharedMem, err = kv.NewInMemory(zap.NewNop(), basedb.Options{}); err != nil {
+				return err
+			}
+		}
+		w.raw = sharedMem
+		if _, err = w.raw.DeletePrefix([]byte(beaconNet)); err == nil {
+			var n int64
+			if n, err = w.raw.CountPrefix(nil); err == nil && n != 0 {
+				err = fmt.Errorf("shared db not empty: %d keys", n)
+			}
+		}
+		if err != nil { // give up sharing, take a fresh instance
+			_ = sharedMem.Close()
+			sharedMem = nil
+			w.shared = false
+			w.raw, err = kv.NewInMemory(zap.NewNop(), basedb.Options{})
+		}
+	default:
 		w.raw, err = kv.NewInMemory(zap.NewNop(), basedb.Options{})
 	}
 	if err != nil {
@@ -216,7 +242,7 @@ func (w *world) restart() error {
 }
 
 func (w *world) close() {
-	if w.raw != nil {
+	if w.raw != nil && !w.shared {
 		_ = w.raw.Close()
 	}
 	if w.dir != "" {
@@ -229,8 +255,8 @@ func (w *world) present(prefix string, pk []byte) bool {
 	return found && err == nil
 }
 
-func newWorld(disk, enc, builder bool, startSlot uint64) (*world, error) {
-	w := &world{disk: disk, enc: enc, builder: builder, slot: &atomic.Uint64{}}
+func newWorld(disk, shared, enc, builder bool, startSlot uint64) (*world, error) {
+	w := &world{disk: disk, shared: shared && !disk, enc: enc, builder: builder, slot: &atomic.Uint64{}}
 	w.slot.Store(startSlot)
 	w.net = clockNet{Network: beacon.NewNetwork(beaconNet), slot: w.slot}
 	if disk {
@@ -396,7 +422,7 @@ func run(p Prog) (res *prog.Result) {
 		return discard(seqTest, "machine-clock-before-2021")
 	}
 	res = &prog.Result{}
-	w, err := newWorld(p.Disk, p.Enc, p.Builder, p.StartSlot)
+	w, err := newWorld(p.Disk, true, p.Enc, p.Builder, p.StartSlot)
 	if err != nil {
 		return discard(seqTest, "db-open")
 	}
@@ -826,7 +852,7 @@ func runConc(p ConcProg) (res *prog.Result) {
 		return discard(concTest, "machine-clock-before-2021")
 	}
 	res = &prog.Result{}
-	w, err := newWorld(false, false, p.Builder, p.StartSlot)
+	w, err := newWorld(false, false, false, p.Builder, p.StartSlot)
 	if err != nil {
 		return discard(concTest, "db-open")
 	}
